@@ -31,6 +31,8 @@ def _base_queries():
                 desc="verify_CV_sig: accepted => validator's client key, transcript hash, right DigestInfo OID, verifier success; all key types / hash ids"))
     qs.append(Q("server-do_rsa_decrypt", "C03_server.c", units=["src/codec/ccopy.c"], defs=["-DPART=2"], unwind=70, timeout=300, backend="cadical",
                 desc="do_rsa_decrypt: premaster version forced to client_max_version; random substitute iff decryption failed; buffer wiped (48-byte premaster in a 64-byte message)"))
+    qs.append(Q("server-do_static_ecdh", "C03_server.c", units=["src/codec/ccopy.c"], defs=["-DPART=4"], unwind=140, timeout=300, backend="cadical",
+                desc="do_static_ecdh: certified client point -> shared secret used iff the key exchange succeeded, random substitute otherwise"))
     qs.append(Q("server-do_ecdh", "C03_server.c", units=["src/codec/ccopy.c"], defs=["-DPART=3"], unwind=90, timeout=300, backend="cadical",
                 desc="do_ecdh/ecdh_common: shared secret used iff the key exchange succeeded, random otherwise; wiped; X coordinate up to 33 bytes"))
     return qs
@@ -45,3 +47,16 @@ def queries():
 if _t0 is not None:
     META["assumptions"] = list(META.get("assumptions", [])) + list(getattr(_t0, "ASSUMPTIONS", []))
     META["mutants_tried"] = list(META.get("mutants_tried", [])) + list(getattr(_t0, "MUTANTS", []))
+
+
+# ---- cross-included by the main session: Finished / CertificateVerify authenticate the handshake only if the transcript
+# hash is fed exactly the bytes on the wire; decided by the C07 query family t0-hsio-* (byte I/O natives of both programs).
+_c03_queries = queries
+def queries():
+    qs = _c03_queries()
+    try:
+        import C07_t0_part
+        qs = qs + C07_t0_part.hsio_queries()
+    except Exception:
+        pass
+    return qs
